@@ -4,7 +4,7 @@ from __future__ import annotations
 import ast
 from typing import List, Optional, Set
 
-from vlib import match, source
+from vlib import flow, match, source
 from vlib.cfg import CFG, own_calls
 from vlib.source import AnalysisError, call_name, dotted, last_attr, short
 
@@ -160,6 +160,32 @@ def run(ctx) -> None:
                "a value is expanded from %s, which can hold launch values of *other* variables: a reference to $A inside B is "
                "replaced by the launch environment's A although the environment defines its own A (own variables must win)"
                % short(ctxarg, 60), construct="expand_vars(%s, %s)" % (short(subj, 40), short(ctxarg, 50)))
+
+    # the context of the own-variable expansion is the WHOLE layered environment: no definition that reaches the call is a filtered
+    # copy of the environment (a variable that was blanked on purpose must still shadow the launch variable of the same name)
+    cfg5 = CFG(ewn)
+    for c in xs:
+        ctxarg = c.args[1] if len(c.args) > 1 else next((k.value for k in c.keywords if k.arg == "environment"), None)
+        if not (isinstance(ctxarg, ast.Name) and ctxarg.id == ENV):
+            continue
+        at = [n for n in cfg5.nodes if n.ast is not None and n.kind == "stmt" and any(c is x for x in ast.walk(n.ast))]
+        if not at:
+            continue
+        rd = flow.reaching_defs(cfg5, ENV).get(at[0].id, frozenset())
+        filtered = []
+        for d in rd:
+            v = flow.def_value(cfg5, d, ENV) if d >= 0 else None
+            if isinstance(v, (ast.DictComp, ast.ListComp, ast.GeneratorExp)) or (isinstance(v, ast.Call) and call_name(v) == "dict" and v.args
+                                                                                and isinstance(v.args[0], (ast.GeneratorExp, ast.ListComp))):
+                comp = v if not isinstance(v, ast.Call) else v.args[0]
+                if any(g.ifs for g in comp.generators) and any(ENV in source.names_in(g.iter) for g in comp.generators):
+                    filtered.append(v)
+        ctx.ob("C17.R5-expansion-context", c, not filtered,
+               "the expansion context is the whole layered environment" if not filtered else
+               "the environment is filtered (%s) before its values are expanded against it: a variable that a platform blanks on purpose is no "
+               "longer in the lookup, so '$VAR' inside another value is left for os.path.expandvars, which fills it from the launch "
+               "environment - a launch variable that the environment neither defines with that value nor imports" % short(filtered[0], 70),
+               construct="expand_vars context = unfiltered %s" % ENV)
 
     # other helpers on the path do not read the launch environment (thorough: closure over self-method calls)
     seen: Set[str] = set()
